@@ -55,7 +55,8 @@ Reqs(n) ==
 Lists(n, L) == {s \in [1..L -> 1..n] :
                   \A x, y \in 1..L : x # y => s[x] # s[y]}
 Modes(L) == IF L % 2 = 0 THEN {"halves", "diamond"} ELSE {"diamond"}
-Times(L, reps, sig) == IF Timing /\ sig = 1 THEN 0..(L * reps) ELSE {0}
+Times(L, reps, sig) == IF Timing /\ sig = 1
+                       THEN 0..(L * (IF reps < 1 THEN 1 ELSE reps)) ELSE {0}
 
 GroupsL(n, L) ==
   UNION { { [members |-> m, mode |-> md, reps |-> rp, sig |-> sg, raiseAt |-> t]
